@@ -12,10 +12,20 @@
      Register(c)   Clients::register (iroh-relay/src/server/clients.rs): one DashMap entry critical
                    section: the new connection becomes the active one, an older one is pushed to
                    `inactive`; the connection actor starts serving.
+                   For the connections in SplitConns the critical section is explicit:
+     RegisterLock(c)    `self.0.clients.entry(endpoint)` : the entry (shard) lock is taken
+                        [pause point relay.register.locked:<endpoint> sits here, lock held]
+     RegisterBody(c)    the entry is edited (replace active / insert)
+     RegisterUnlock(c)  the entry guard is dropped at the end of the match arm
      DiscId(c)     Clients::disconnect(endpoint, Some(connection_id))
      DiscKey(k)    Clients::disconnect(endpoint, None)
-                   both: look the endpoint up in the registry, start_shutdown() on the matching
-                   registered connections, return whether one was found.
+                   both: `self.0.clients.get(endpoint)` takes the entry lock, start_shutdown() on the
+                   matching registered connections, return whether one was found.
+     DiscIdCall / DiscIdRet, DiscKeyCall / DiscKeyRet
+                   the same call issued while a Register of that endpoint holds the entry lock: `get`
+                   blocks (Call), and the call proceeds and returns once the lock is free (Ret).
+                   TryLock = TRUE is the variant that does not wait (`try_get`, a locked entry is
+                   treated like an absent endpoint): the call returns false at once and is lost.
      Serve(c)      the connection actor answers a client frame (ping -> pong, datagram forwarded)
      ActorExit(c)  actor observes the cancellation, flushes, Clients::unregister (promotes the newest
                    inactive connection), drops the guard (on_disconnect)
@@ -24,97 +34,168 @@
    that is not registered yet is remembered in `pending` and honoured by Register) versus the code as
    written at the pinned commit (FALSE: `disconnect` returns false for an unknown connection and
    nothing is remembered).  The required design satisfies the properties below; TLC refutes the code
-   as written with  Admit(t); DiscId(t); Register(t)  (known deviation C08_revoke_before_register).
+   as written with  Admit(t); DiscId(t); Register(t)  (known deviation C08_revoke_before_register)
+   and the TryLock variant with  ..; RegisterLock(t2); DiscIdCall(t)  (a registered connection whose
+   revocation was dropped).
+
+   `revoked` holds the connections for which a disconnect call has *returned*: from then on they must
+   not be served.  A call that is still blocked on the entry lock has not returned.
 
    `word` is the schedule: the sequence of forcible steps, which vh_relayauth c08 imposes on a real
-   `Server::spawn` through the pause point (mode C).  ActorExit and Serve are not part of the word:
-   they are the server's own asynchronous steps; the harness waits for quiescence instead.
+   `Server::spawn` through the pause points (mode C).  RegisterBody, ActorExit and Serve are not part
+   of the word: they are the server's own steps; the harness waits for their effects instead.
 
-   Same-key connections are admitted and released in the order of ConnOrder (the pause gate is FIFO
-   per endpoint); this restricts the words, not the server. *)
+   Generator switches (they restrict the words, not the server): same-key connections are admitted
+   and released in the order of ConnOrder (the pause gates are FIFO per endpoint); InOrder sets the
+   connections up one after the other in ConnOrder; DiscAfterSetup allows disconnects only once every
+   connection is registered; PromptRet lets a blocked disconnect call return before any other step
+   of the word once the lock is free (the blocked thread of the real call cannot be held back). *)
 EXTENDS Naturals, Sequences, FiniteSets, TLC, Json
 CONSTANTS Conns, Keys, KeyOf,   \* connections, endpoint ids, KeyOf[c]
           ConnOrder,            \* sequence of all connections: per-key FIFO of admission / release
           Targets,              \* connections the embedder may revoke
           MaxDisc,              \* number of disconnect requests in a behaviour
-          FixRevoke
+          FixRevoke,
+          SplitConns,           \* connections whose Register is RegisterLock; RegisterBody; RegisterUnlock
+          TryLock,              \* TRUE: disconnect does not wait for the entry lock (anti-vacuity)
+          InOrder, DiscAfterSetup, PromptRet
 
 None == "none"
 VARIABLES cstate,     \* [Conns -> {"new","admitted","registered","cancelled","gone"}]
           active,     \* [Keys -> Conns \cup {None}]   ClientState.active
           inactive,   \* [Keys -> Seq(Conns)]          ClientState.inactive
-          revoked,    \* connections for which a disconnect was requested after their admission
+          lock,       \* [Keys -> Conns \cup {None}]   whose register holds the entry lock of the endpoint
+          revoked,    \* connections for which a disconnect call has returned
           pending,    \* FixRevoke only: revocations remembered for not yet registered connections
+          pendId,     \* connections with a disconnect-by-id call blocked on the entry lock
+          pendKey,    \* endpoints with a disconnect-by-endpoint call blocked on the entry lock
           servedRev,  \* ghost: connections that were served after their revocation
           ndisc, word
-vars == <<cstate, active, inactive, revoked, pending, servedRev, ndisc, word>>
+vars == <<cstate, active, inactive, lock, revoked, pending, pendId, pendKey, servedRev, ndisc, word>>
 
 Pos(c) == CHOOSE i \in 1..Len(ConnOrder) : ConnOrder[i] = c
 EarlierSameKey(c) == {d \in Conns : KeyOf[d] = KeyOf[c] /\ Pos(d) < Pos(c)}
 InReg(c) == cstate[c] \in {"registered", "cancelled"}       \* in active/inactive of its key
 Known(c) == cstate[c] \in {"admitted", "registered", "cancelled"}   \* between on_connect and on_disconnect
+SetUp(c) == cstate[c] \notin {"new", "admitted"} /\ lock[KeyOf[c]] # c
+InOrderOk(c) == InOrder => \A d \in Conns : Pos(d) < Pos(c) => SetUp(d)
+DiscAllowed == DiscAfterSetup => \A c \in Conns : SetUp(c)
+ReadyRet == (\E c \in pendId : lock[KeyOf[c]] = None) \/ (\E k \in pendKey : lock[k] = None)
+StepOk == PromptRet => ~ReadyRet       \* guard of every word step other than the returns
 
 Init == /\ cstate = [c \in Conns |-> "new"]
-        /\ active = [k \in Keys |-> None] /\ inactive = [k \in Keys |-> <<>>]
-        /\ revoked = {} /\ pending = {} /\ servedRev = {} /\ ndisc = 0 /\ word = <<>>
+        /\ active = [k \in Keys |-> None] /\ inactive = [k \in Keys |-> <<>>] /\ lock = [k \in Keys |-> None]
+        /\ revoked = {} /\ pending = {} /\ pendId = {} /\ pendKey = {} /\ servedRev = {} /\ ndisc = 0 /\ word = <<>>
 
 Step(op, x, ret) == word' = Append(word, [op |-> op, x |-> x, ret |-> ret])
 
 Admit(c) ==
-  /\ cstate[c] = "new" /\ \A d \in EarlierSameKey(c) : cstate[d] # "new"
+  /\ cstate[c] = "new" /\ (\A d \in EarlierSameKey(c) : cstate[d] # "new") /\ InOrderOk(c) /\ StepOk
   /\ cstate' = [cstate EXCEPT ![c] = "admitted"]
   /\ Step("admit", c, FALSE)
-  /\ UNCHANGED <<active, inactive, revoked, pending, servedRev, ndisc>>
+  /\ UNCHANGED <<active, inactive, lock, revoked, pending, pendId, pendKey, servedRev, ndisc>>
 
-Register(c) ==
+\* the edit of the entry: the body of the critical section
+EditEntry(c) ==
   LET k == KeyOf[c]  old == active[k] IN
-  /\ cstate[c] = "admitted" /\ \A d \in EarlierSameKey(c) : cstate[d] \notin {"new", "admitted"}
   /\ active' = [active EXCEPT ![k] = c]
   /\ inactive' = IF old = None THEN inactive ELSE [inactive EXCEPT ![k] = Append(@, old)]
   /\ IF FixRevoke /\ c \in pending
         THEN cstate' = [cstate EXCEPT ![c] = "cancelled"] /\ pending' = pending \ {c}
         ELSE cstate' = [cstate EXCEPT ![c] = "registered"] /\ UNCHANGED pending
-  /\ Step("register", c, FALSE)
-  /\ UNCHANGED <<revoked, servedRev, ndisc>>
+CanRegister(c) == cstate[c] = "admitted" /\ \A d \in EarlierSameKey(c) : SetUp(d)
+
+Register(c) ==
+  /\ c \notin SplitConns /\ CanRegister(c) /\ lock[KeyOf[c]] = None /\ StepOk
+  /\ EditEntry(c) /\ Step("register", c, FALSE)
+  /\ UNCHANGED <<lock, revoked, pendId, pendKey, servedRev, ndisc>>
+
+RegisterLock(c) ==
+  /\ c \in SplitConns /\ CanRegister(c) /\ lock[KeyOf[c]] = None /\ StepOk
+  /\ lock' = [lock EXCEPT ![KeyOf[c]] = c] /\ Step("reg_lock", c, FALSE)
+  /\ UNCHANGED <<cstate, active, inactive, revoked, pending, pendId, pendKey, servedRev, ndisc>>
+RegisterBody(c) ==
+  /\ lock[KeyOf[c]] = c /\ cstate[c] = "admitted"
+  /\ EditEntry(c)
+  /\ UNCHANGED <<lock, revoked, pendId, pendKey, servedRev, ndisc, word>>
+RegisterUnlock(c) ==
+  /\ lock[KeyOf[c]] = c /\ cstate[c] # "admitted"
+  /\ lock' = [lock EXCEPT ![KeyOf[c]] = None] /\ Step("reg_unlock", c, FALSE)
+  /\ UNCHANGED <<cstate, active, inactive, revoked, pending, pendId, pendKey, servedRev, ndisc>>
 
 \* start_shutdown() on every connection of `hit` that is in the registry; remember the others
 Revoke(hit) ==
   /\ cstate' = [c \in Conns |-> IF c \in hit /\ cstate[c] = "registered" THEN "cancelled" ELSE cstate[c]]
   /\ pending' = IF FixRevoke THEN pending \cup {c \in hit : cstate[c] = "admitted"} ELSE pending
   /\ revoked' = revoked \cup hit
-  /\ ndisc' = ndisc + 1
-  /\ UNCHANGED <<active, inactive, servedRev>>
+  /\ UNCHANGED <<active, inactive, lock, servedRev>>
+HitOf(k) == {c \in Conns : KeyOf[c] = k /\ Known(c)}
 
 DiscId(c) ==
-  /\ ndisc < MaxDisc /\ c \in Targets /\ Known(c) /\ c \notin revoked
-  /\ Revoke({c}) /\ Step("disc_id", c, InReg(c))
+  /\ ndisc < MaxDisc /\ c \in Targets /\ Known(c) /\ c \notin revoked /\ c \notin pendId /\ DiscAllowed /\ StepOk
+  /\ lock[KeyOf[c]] = None
+  /\ Revoke({c}) /\ ndisc' = ndisc + 1 /\ Step("disc_id", c, InReg(c))
+  /\ UNCHANGED <<pendId, pendKey>>
 
 DiscKey(k) ==
-  LET hit == {c \in Conns : KeyOf[c] = k /\ Known(c)} IN
-  /\ ndisc < MaxDisc /\ hit \cap Targets # {} /\ ~(hit \subseteq revoked)
-  /\ Revoke(hit) /\ Step("disc_key", k, \E c \in hit : InReg(c))
+  /\ ndisc < MaxDisc /\ HitOf(k) \cap Targets # {} /\ ~(HitOf(k) \subseteq revoked) /\ k \notin pendKey /\ DiscAllowed /\ StepOk
+  /\ lock[k] = None
+  /\ Revoke(HitOf(k)) /\ ndisc' = ndisc + 1 /\ Step("disc_key", k, \E c \in HitOf(k) : InReg(c))
+  /\ UNCHANGED <<pendId, pendKey>>
+
+\* the call finds the entry locked by a Register of the same endpoint
+DiscIdCall(c) ==
+  /\ ndisc < MaxDisc /\ c \in Targets /\ Known(c) /\ c \notin revoked /\ c \notin pendId /\ DiscAllowed /\ StepOk
+  /\ lock[KeyOf[c]] # None /\ ndisc' = ndisc + 1
+  /\ IF TryLock
+        THEN /\ revoked' = revoked \cup {c} /\ Step("disc_id", c, FALSE)          \* returns false at once: dropped
+             /\ UNCHANGED pendId
+        ELSE /\ pendId' = pendId \cup {c} /\ Step("disc_id_call", c, FALSE)        \* blocks
+             /\ UNCHANGED revoked
+  /\ UNCHANGED <<cstate, active, inactive, lock, pending, pendKey, servedRev>>
+DiscIdRet(c) ==
+  /\ c \in pendId /\ lock[KeyOf[c]] = None
+  /\ Revoke({c}) /\ pendId' = pendId \ {c} /\ Step("disc_id_ret", c, InReg(c))
+  /\ UNCHANGED <<pendKey, ndisc>>
+DiscKeyCall(k) ==
+  /\ ndisc < MaxDisc /\ HitOf(k) \cap Targets # {} /\ ~(HitOf(k) \subseteq revoked) /\ k \notin pendKey /\ DiscAllowed /\ StepOk
+  /\ lock[k] # None /\ ndisc' = ndisc + 1
+  /\ IF TryLock
+        THEN /\ revoked' = revoked \cup HitOf(k) /\ Step("disc_key", k, FALSE)
+             /\ UNCHANGED pendKey
+        ELSE /\ pendKey' = pendKey \cup {k} /\ Step("disc_key_call", k, FALSE)
+             /\ UNCHANGED revoked
+  /\ UNCHANGED <<cstate, active, inactive, lock, pending, pendId, servedRev>>
+DiscKeyRet(k) ==
+  /\ k \in pendKey /\ lock[k] = None
+  /\ Revoke(HitOf(k)) /\ pendKey' = pendKey \ {k} /\ Step("disc_key_ret", k, \E c \in HitOf(k) : InReg(c))
+  /\ UNCHANGED <<pendId, ndisc>>
 
 Serve(c) ==
   /\ cstate[c] = "registered"
   /\ servedRev' = IF c \in revoked THEN servedRev \cup {c} ELSE servedRev
-  /\ UNCHANGED <<cstate, active, inactive, revoked, pending, ndisc, word>>
+  /\ UNCHANGED <<cstate, active, inactive, lock, revoked, pending, pendId, pendKey, ndisc, word>>
 
 RemoveFrom(s, c) == SelectSeq(s, LAMBDA x : x # c)
+\* Clients::unregister takes the entry lock as well (remove_if_mut)
 ActorExit(c) ==
   LET k == KeyOf[c] IN
-  /\ cstate[c] = "cancelled" /\ cstate' = [cstate EXCEPT ![c] = "gone"]
+  /\ cstate[c] = "cancelled" /\ lock[k] = None /\ cstate' = [cstate EXCEPT ![c] = "gone"]
   /\ IF active[k] = c
         THEN IF inactive[k] # <<>>
                 THEN /\ active' = [active EXCEPT ![k] = inactive[k][Len(inactive[k])]]
                      /\ inactive' = [inactive EXCEPT ![k] = SubSeq(@, 1, Len(@) - 1)]
                 ELSE active' = [active EXCEPT ![k] = None] /\ UNCHANGED inactive
         ELSE inactive' = [inactive EXCEPT ![k] = RemoveFrom(@, c)] /\ UNCHANGED active
-  /\ UNCHANGED <<revoked, pending, servedRev, ndisc, word>>
+  /\ UNCHANGED <<lock, revoked, pending, pendId, pendKey, servedRev, ndisc, word>>
 
-Next == \/ \E c \in Conns : Admit(c) \/ Register(c) \/ DiscId(c) \/ Serve(c) \/ ActorExit(c)
-        \/ \E k \in Keys : DiscKey(k)
+Next == \/ \E c \in Conns : \/ Admit(c) \/ Register(c) \/ RegisterLock(c) \/ RegisterBody(c) \/ RegisterUnlock(c)
+                            \/ DiscId(c) \/ DiscIdCall(c) \/ DiscIdRet(c) \/ Serve(c) \/ ActorExit(c)
+        \/ \E k \in Keys : DiscKey(k) \/ DiscKeyCall(k) \/ DiscKeyRet(k)
 Spec == Init /\ [][Next]_vars
-FairSpec == Spec /\ \A c \in Conns : WF_vars(Register(c)) /\ WF_vars(ActorExit(c))
+FairSpec == Spec /\ \A c \in Conns : /\ WF_vars(Register(c)) /\ WF_vars(RegisterLock(c)) /\ WF_vars(RegisterBody(c))
+                                     /\ WF_vars(RegisterUnlock(c)) /\ WF_vars(ActorExit(c)) /\ WF_vars(DiscIdRet(c))
+                 /\ \A k \in Keys : WF_vars(DiscKeyRet(k))
 
 ---------------------------------------------------------------------------
 (* C08 *)
@@ -123,6 +204,9 @@ RevokedNotServed == \A c \in revoked : cstate[c] # "registered"
 NoServiceAfterRevoke == servedRev = {}
 \* ... and is eventually gone from the registry, however the request interleaves with its setup
 RevokedEventuallyGone == \A c \in Conns : (c \in revoked) ~> (cstate[c] = "gone")
+\* a disconnect call that had to wait for the entry lock is not lost
+BlockedCallsReturn == /\ \A c \in Conns : (c \in pendId) ~> (c \in revoked)
+                      /\ \A k \in Keys : (k \in pendKey) ~> (k \notin pendKey)
 \* other connections are unaffected: a disconnect step changes only connections it names
 OthersUnaffected == [][ revoked' # revoked => \A d \in Conns : cstate'[d] # cstate[d] => d \in revoked' ]_vars
 \* only connections that were admitted are ever registered; the registry holds exactly the live ones
@@ -131,9 +215,11 @@ RegistryShape == \A k \in Keys :
    /\ \A c \in Conns : KeyOf[c] = k =>
         (InReg(c) <=> (active[k] = c \/ \E i \in 1..Len(inactive[k]) : inactive[k][i] = c))
 PendingOnlyAdmitted == \A c \in pending : cstate[c] = "admitted"
+LockDiscipline == \A k \in Keys : lock[k] # None => KeyOf[lock[k]] = k /\ ~SetUp(lock[k])
 
 \* schedule generator: one REPLAY line per complete schedule, with the outcome the property requires
-Quiescent == /\ ndisc = MaxDisc /\ \A c \in Conns : cstate[c] \in {"registered", "gone"}
+Quiescent == /\ ndisc = MaxDisc /\ pendId = {} /\ pendKey = {}
+             /\ \A c \in Conns : cstate[c] \in {"registered", "gone"} /\ lock[KeyOf[c]] = None
 Emit == Quiescent => PrintT(<<"REPLAY", ToJson(
           [word |-> word, served |-> [c \in Conns |-> cstate[c] = "registered"], revoked |-> revoked,
            active |-> active])>>)
